@@ -75,10 +75,10 @@ theorem partOK_flatten {LoI HiI : List Version} {p : Version} {q : VC} (h : Part
   · simp [VC.flatten] at hx; subst hx; exact ⟨h1, r, rfl, h2⟩
 
 /-- every part the walk collects comes from a pairwise intersection -/
-theorem loop_parts_inv (I : RC → Prop) (Q : VC → Prop)
-    (hstep : ∀ o t i, I o → I t → RC.intersect o t = .ok i → Q i) :
+theorem loop_parts_inv (I J : RC → Prop) (Q : VC → Prop)
+    (hstep : ∀ o t i, I o → J t → RC.intersect o t = .ok i → Q i) :
     ∀ (fuel : Nat) (ours theirs : List RC) (acc parts : List VC),
-      VC.unionIntersectLoop fuel ours theirs acc = .ok parts → (∀ c ∈ ours, I c) → (∀ c ∈ theirs, I c) →
+      VC.unionIntersectLoop fuel ours theirs acc = .ok parts → (∀ c ∈ ours, I c) → (∀ c ∈ theirs, J c) →
       (∀ q ∈ acc, Q q) → ∀ q ∈ parts, Q q
   | 0, _, _, _, _, h, _, _, _ => by simp [VC.unionIntersectLoop] at h
   | fuel + 1, [], theirs, acc, parts, h, _, _, ha => by
@@ -101,8 +101,8 @@ theorem loop_parts_inv (I : RC → Prop) (Q : VC → Prop)
           · exact ha q h1
           · exact hq
       split at h
-      · exact loop_parts_inv I Q hstep fuel os (t :: ts) _ parts h (fun c hc => ho c (by simp [hc])) ht ha'
-      · exact loop_parts_inv I Q hstep fuel (o :: os) ts _ parts h ho (fun c hc => ht c (by simp [hc])) ha'
+      · exact loop_parts_inv I J Q hstep fuel os (t :: ts) _ parts h (fun c hc => ho c (by simp [hc])) ht ha'
+      · exact loop_parts_inv I J Q hstep fuel (o :: os) ts _ parts h ho (fun c hc => ht c (by simp [hc])) ha'
 
 theorem anyAllows_flatMap_parts (parts : List VC) (p : Version) :
     anyAllows (parts.flatMap VC.flatten) p = true ↔ anyPart parts p := by
@@ -138,7 +138,8 @@ theorem VC.intersect_at {LoI HiI : List Version} (hnp : NoPoint LoI HiI) (p : Ve
     intro fuel ours theirs hf ho ht hso hst
     obtain ⟨parts, hparts, hsem, _⟩ := unionIntersectLoop_at p hp fuel ours theirs [] hf
       (fun c hc => okOf c (ho c hc)) (fun c hc => okOf c (ht c hc)) hso hst
-    have hQ := loop_parts_inv (fun x => RngMember x ∧ x.PSem LoI HiI p) (PartOK LoI HiI p) step fuel ours theirs []
+    have hQ := loop_parts_inv (fun x => RngMember x ∧ x.PSem LoI HiI p) (fun x => RngMember x ∧ x.PSem LoI HiI p)
+      (PartOK LoI HiI p) step fuel ours theirs []
       parts hparts ho ht (by simp)
     obtain ⟨res, hres, hwf, hmem, hrsem⟩ := unionOfFlat_at p hp (parts.flatMap VC.flatten) (by
       intro x hx
@@ -194,5 +195,154 @@ theorem RC.HalfOpenDev.psem {x : RC} (h : x.HalfOpenDev) (LoI : List Version) (h
   · intro M hM; exact Or.inl (ho.2 M hM)
   · intro m hmm _; exact hl m (VRange.mem_bounds_min hmm)
   · intro M hM hi; rw [ho.2 M hM] at hi; cases hi
+
+/-! ### a single `Version` (an `==V` clause) against ranges and unions -/
+
+/-- the invariant with one more state: the constraint is a single `Version` the probe is regular for -/
+def VC.QInv (LoI HiI : List Version) (c : VC) (p : Version) : Prop :=
+  (∃ x, c = .single (.ver x) ∧ x.wf = true ∧ Reg1 p x) ∨ c.PInv LoI HiI p
+
+theorem mergeLoop_vers (x : Version) (hx : x.wf = true) : ∀ (l : List RC), (∀ c ∈ l, c = .ver x) →
+    (l ≠ [] → mergeLoop l [] = .ok [.ver x]) ∧ mergeLoop l [.ver x] = .ok [.ver x]
+  | [], _ => ⟨fun h => absurd rfl h, rfl⟩
+  | c :: rest, h => by
+    have hc : c = .ver x := h c (by simp)
+    subst hc
+    have ih := mergeLoop_vers x hx rest (fun c hc => h c (by simp [hc]))
+    have hself : x.allows x = true := Version.allows_of_vk_eq hx hx rfl
+    have hany : RC.allowsAny (.ver x) (.ver x) = .ok true := by
+      simp [RC.allowsAny, RC.intersect, RC.verIntersectVer, hself, bind, Except.bind, pure, Except.pure, VC.isEmpty]
+    have hu : rcUnionSingle (.ver x) (.ver x) = .ok (some (.ver x)) := by
+      simp [rcUnionSingle, RC.allows, hself]
+    have step : mergeLoop (.ver x :: rest) [.ver x] = .ok [.ver x] := by
+      simp only [mergeLoop, hany, bind, Except.bind, Bool.not_true, Bool.false_and, Bool.false_eq_true, if_false, hu]
+      exact ih.2
+    exact ⟨fun _ => by simp only [mergeLoop]; exact ih.2, step⟩
+
+/-- `VersionUnion.of` on copies of one `Version` -/
+theorem unionOfFlat_vers (x : Version) (hx : x.wf = true) (l : List RC) (h : ∀ c ∈ l, c = .ver x) :
+    unionOfFlat l = .ok (if l = [] then .empty else .single (.ver x)) := by
+  unfold unionOfFlat
+  by_cases h1 : l = []
+  · simp [h1]
+  · have hne : l.isEmpty = false := by simpa using h1
+    have hany : l.any RC.isAny = false := by
+      rw [Bool.eq_false_iff]; intro ha
+      obtain ⟨c, hc, hca⟩ := List.any_eq_true.1 ha
+      rw [h c hc] at hca; simp [RC.isAny] at hca
+    have hs : ∀ c ∈ sortRCs l, c = .ver x := fun c hc => h c ((mem_sortRCs c l).1 hc)
+    have hsne : sortRCs l ≠ [] := by
+      obtain ⟨a, as, ha⟩ := List.exists_cons_of_ne_nil h1
+      intro e
+      have : a ∈ sortRCs l := (mem_sortRCs a l).2 (by rw [ha]; simp)
+      rw [e] at this; simp at this
+    simp only [hne, hany, Bool.false_eq_true, if_false, (mergeLoop_vers x hx _ hs).1 hsne, bind, Except.bind, h1]
+    rfl
+
+/-- **a union of range members ∩ a single `Version`, at the probe** -/
+theorem union_inter_ver_at {LoI HiI : List Version} (p : Version) (hp : p.wf = true) (rs : List RC) (x : Version)
+    (hrs : (VC.union rs).PInv LoI HiI p) (hx : x.wf = true) (hrx : Reg1 p x) :
+    ∃ c, VC.intersect (.union rs) (.single (.ver x)) = .ok c ∧ (c = .empty ∨ c = .single (.ver x)) ∧
+      c.allowsPlain p = (anyAllows rs p && x.allows p) := by
+  have hmem : ∀ c ∈ rs, RngMember c ∧ c.PSem LoI HiI p := fun c hc => hrs.2 c (by simpa [VC.flatten] using hc)
+  have okOf : ∀ c ∈ rs, c.WF ∧ c.OKat p ∧ c.RngNoLocal := by
+    intro c hc
+    obtain ⟨h1, r, rfl, hr⟩ := hmem c hc
+    exact ⟨h1.1, hr.okat, hr.2.2.1⟩
+  obtain ⟨parts, hparts, hsem, _⟩ := unionIntersectLoop_at p hp (rs.length + 1 + 1) rs [.ver x] [] (by simp)
+    okOf (by intro c hc; simp at hc; subst hc; exact ⟨hx, hrx, trivial⟩) hrs.1.2.2.1 (by simp [SortedRC])
+  have hQ := loop_parts_inv (fun c => RngMember c ∧ c.PSem LoI HiI p) (fun c => c = .ver x)
+    (fun q => q = .empty ∨ q = .single (.ver x)) (by
+      rintro o t i ⟨ho1, r, rfl, hr⟩ rfl hi
+      simp only [RC.intersect, Except.ok.injEq] at hi; subst hi
+      exact ((RC.rngIntersectVer_at r x p hr.1.1 hx hp hr.okat hrx
+        (fun m hm => hr.2.2.1 m (VRange.mem_bounds_min hm))).2).symm)
+    (rs.length + 1 + 1) rs [.ver x] [] parts hparts hmem (by intro c hc; simpa using hc) (by simp)
+  -- the parts flatten to copies of the version
+  have hflat : ∀ c ∈ parts.flatMap VC.flatten, c = .ver x := by
+    intro c hc
+    obtain ⟨q, hq, hcq⟩ := List.mem_flatMap.1 hc
+    rcases hQ q hq with rfl | rfl
+    · simp [VC.flatten] at hcq
+    · simpa [VC.flatten] using hcq
+  have hres := unionOfFlat_vers x hx _ hflat
+  refine ⟨_, by simp only [VC.intersect, VC.flatten, List.length_singleton, hparts, bind, Except.bind, VC.unionOf]
+                exact hres, ?_, ?_⟩
+  · split
+    · exact Or.inl rfl
+    · exact Or.inr rfl
+  · have hs : anyPart parts p ↔ (anyAllows rs p = true ∧ x.allows p = true) := by
+      rw [hsem]; simp [anyPart, anyAllows, RC.allows]
+    by_cases he : parts.flatMap VC.flatten = []
+    · simp only [he, if_true, VC.allowsPlain, VC.flatten, List.any_nil]
+      have hno : ¬ anyPart parts p := by
+        rw [← anyAllows_flatMap_parts, he]; simp [anyAllows]
+      cases h1 : anyAllows rs p <;> cases h2 : x.allows p <;> simp
+      exact hno (hs.2 ⟨h1, h2⟩)
+    · simp only [he, if_false, VC.allowsPlain, VC.flatten, List.any_cons, List.any_nil, Bool.or_false, RC.allows]
+      -- some part is the version: the parts admit `p` iff the version does
+      have hsome : anyPart parts p ↔ x.allows p = true := by
+        rw [← anyAllows_flatMap_parts]
+        obtain ⟨c, cs, hcs⟩ := List.exists_cons_of_ne_nil he
+        constructor
+        · intro h
+          obtain ⟨z, hz, hzp⟩ := List.any_eq_true.1 h
+          rw [hflat z hz] at hzp; exact hzp
+        · intro h
+          refine List.any_eq_true.2 ⟨c, by rw [hcs]; simp, ?_⟩
+          rw [hflat c (by rw [hcs]; simp)]; exact h
+      apply bool_eq_of_iff
+      rw [← hsome, hs, Bool.and_eq_true]
+
+/-- **`intersect` at the probe, a single `Version` allowed as an operand or as the result** -/
+theorem VC.intersect_atQ {LoI HiI : List Version} (hnp : NoPoint LoI HiI) (p : Version) (hp : p.wf = true)
+    (a b : VC) (ha : a.QInv LoI HiI p) (hb : b.QInv LoI HiI p) :
+    ∃ c, VC.intersect a b = .ok c ∧ c.QInv LoI HiI p ∧ c.allowsPlain p = (a.allowsPlain p && b.allowsPlain p) := by
+  have emptyQ : (VC.empty).QInv LoI HiI p := Or.inr ⟨trivial, by simp [VC.flatten]⟩
+  have verQ : ∀ x : Version, x.wf = true → Reg1 p x → ∀ c : VC, (c = .empty ∨ c = .single (.ver x)) →
+      c.QInv LoI HiI p := by
+    intro x hx hr c hc
+    rcases hc with rfl | rfl
+    · exact emptyQ
+    · exact Or.inl ⟨x, rfl, hx, hr⟩
+  -- a version against a constraint over range members
+  have verRng : ∀ (x : Version), x.wf = true → Reg1 p x → ∀ c : VC, c.PInv LoI HiI p →
+      (∃ r, VC.intersect (.single (.ver x)) c = .ok r ∧ (r = .empty ∨ r = .single (.ver x)) ∧
+        r.allowsPlain p = (x.allows p && c.allowsPlain p)) ∧
+      (∃ r, VC.intersect c (.single (.ver x)) = .ok r ∧ (r = .empty ∨ r = .single (.ver x)) ∧
+        r.allowsPlain p = (c.allowsPlain p && x.allows p)) := by
+    intro x hx hrx c hc
+    cases c with
+    | empty =>
+      exact ⟨⟨.empty, rfl, Or.inl rfl, by simp [VC.allowsPlain, VC.flatten]⟩,
+        ⟨.empty, rfl, Or.inl rfl, by simp [VC.allowsPlain, VC.flatten]⟩⟩
+    | single y =>
+      obtain ⟨hy1, s, rfl, hs⟩ := hc.2 y (by simp [VC.flatten])
+      obtain ⟨h1, h2⟩ := RC.rngIntersectVer_at s x p hs.1.1 hx hp hs.okat hrx
+        (fun m hm => hs.2.2.1 m (VRange.mem_bounds_min hm))
+      exact ⟨⟨_, rfl, h2.symm, by rw [h1, Bool.and_comm]; simp [VC.allowsPlain, VC.flatten, RC.allows]⟩,
+        ⟨_, rfl, h2.symm, by rw [h1]; simp [VC.allowsPlain, VC.flatten, RC.allows]⟩⟩
+    | union rs =>
+      obtain ⟨r, h1, h2, h3⟩ := union_inter_ver_at p hp rs x hc hx hrx
+      exact ⟨⟨r, by rw [VC.intersect_single_union]; exact h1, h2, by
+          rw [h3, Bool.and_comm]; simp [VC.allowsPlain, VC.flatten, anyAllows]⟩,
+        ⟨r, h1, h2, by rw [h3]; simp [VC.allowsPlain, VC.flatten, anyAllows]⟩⟩
+  rcases ha with ⟨x, rfl, hx, hrx⟩ | ha
+  · rcases hb with ⟨y, rfl, hy, hry⟩ | hb
+    · refine ⟨RC.verIntersectVer x y, rfl, ?_, by
+        rw [RC.verIntersectVer_exact x y p hx hy hp hrx hry]; simp [VC.allowsPlain, VC.flatten, RC.allows]⟩
+      unfold RC.verIntersectVer
+      split
+      · exact Or.inl ⟨y, rfl, hy, hry⟩
+      · split
+        · exact Or.inl ⟨x, rfl, hx, hrx⟩
+        · exact emptyQ
+    · obtain ⟨r, h1, h2, h3⟩ := (verRng x hx hrx b hb).1
+      exact ⟨r, h1, verQ x hx hrx r h2, by rw [h3]; simp [VC.allowsPlain, VC.flatten, RC.allows]⟩
+  · rcases hb with ⟨y, rfl, hy, hry⟩ | hb
+    · obtain ⟨r, h1, h2, h3⟩ := (verRng y hy hry a ha).2
+      exact ⟨r, h1, verQ y hy hry r h2, by rw [h3]; simp [VC.allowsPlain, VC.flatten, RC.allows]⟩
+    · obtain ⟨c, h1, h2, h3⟩ := VC.intersect_at hnp p hp a b ha hb
+      exact ⟨c, h1, Or.inr h2, h3⟩
 
 end Poetry
